@@ -33,10 +33,7 @@ Theorem C17_conntrack : forall fw cs incoming pkt mynets pr pl,
    \/ (exists u, In u (p_unsafe pr) /\ contains u (pk_remote pkt) = true))
   /\ ((exists n, In n (my_nets (fw_conf fw)) /\ fst n = pk_local pkt)
       \/ (exists u, In u (my_unsafe (fw_conf fw)) /\ contains u (pk_local pkt) = true)).
-Proof.
-  intros fw cs incoming pkt mynets pr pl H. rewrite drop_ct_drop in H.
-  split; [exact (remote_authentic _ _ _ _ _ _ _ _ H)|exact (local_authentic _ _ _ _ _ _ _ H)].
-Qed.
+Proof. exact conntrack_authentic. Qed.
 Print Assumptions C17_conntrack.
 
 (* HostInfo.buildNetworks against the certificate: the table is skipped exactly when the certificate has one network,
@@ -49,15 +46,7 @@ Theorem C17_build_networks : forall mynets pr,
   (forall a, remote_check (hostinfo_of mynets pr) a = None ->
      (exists n, In n (p_nets pr) /\ fst n = a /\ any_contains mynets (fst n) = true)
      \/ (exists u, In u (p_unsafe pr) /\ contains u a = true)).
-Proof.
-  intros mynets pr. split; [reflexivity|split; [|intros a; apply build_networks_sound]].
-  unfold hostinfo_of, simple_case; cbn [h_networks].
-  destruct (p_nets pr) as [|n [|m l]]; destruct (p_unsafe pr) as [|u us];
-    try (split; [discriminate|intros [x [H1 [H2 H3]]]; discriminate]).
-  destruct (any_contains mynets (fst n)) eqn:E.
-  - split; [intros _; exists n; auto|reflexivity].
-  - split; [discriminate|intros [x [H1 [_ H3]]]; inversion H1; subst; congruence].
-Qed.
+Proof. exact build_networks_char. Qed.
 Print Assumptions C17_build_networks.
 
 (* ---- non-vacuity: an allow-everything firewall still refuses unauthentic addresses ---- *)
